@@ -14,7 +14,7 @@ from vlib.cosched.sched import Abort
 
 SOURCES = ["queued", "adopt:outside", "adopt:threading", "adopt:other", "service",
            "execute:outside", "execute:other", "execute:threading", "execute:early",
-           "adopt:own-loop", "adopt:in-section"]
+           "adopt:own-loop", "adopt:in-section", "execute:foreign-trio"]
 
 
 class Scenario:
@@ -56,6 +56,10 @@ class Scenario:
                     kit.submit({"id": "carrier%d" % index, "flavour": flavour,
                                 "steps": [("sleep", 0.5), ("section-adopt", desc),
                                           ("forever", 0.5)]})
+                elif where == "foreign-trio":
+                    kit.submit({"id": "carrier%d" % index, "flavour": "threading",
+                                "steps": [("sleep", 0.5), ("execute-foreign-trio", desc),
+                                          ("block",)]})
                 elif where == "own-loop":
                     kit.submit({"id": "carrier%d" % index, "flavour": "threading",
                                 "steps": [("sleep", 0.5), ("adopt-own-loop", desc), ("block",)]})
